@@ -73,6 +73,27 @@ pub fn gen_cmd(rng: &mut Rng, w: &CliWorld) -> Cmd {
       _ => {}
     }
   }
+  // `--globs`: later globs override earlier ones
+  if rng.chance(0.12) {
+    let exts: Vec<String> = {
+      let mut v: Vec<String> = w.files.iter().filter_map(|f| f.path.rsplit('.').next().map(|e| e.to_string())).filter(|e| !e.contains('/')).collect();
+      v.sort();
+      v.dedup();
+      v
+    };
+    let ext = if exts.is_empty() { s("ts") } else { rng.pick(&exts).clone() };
+    let dir = *rng.pick(&["web", "lib", "src", "src/deep", "vendor", "gen code"]);
+    match rng.below(3) {
+      0 => cmd.args.extend([s("--globs"), format!("!**/{dir}/**")]),
+      1 => cmd.args.extend([s("--globs"), format!("**/*.{ext}"), s("--globs"), format!("!**/{dir}/**")]),
+      _ => {
+        // (a directory below an excluded one is pruned before the third glob can re-include its
+        // files: keep to directories without sub-directories here)
+        let leaf = if dir == "src" { "src/deep" } else { dir };
+        cmd.args.extend([s("--globs"), format!("**/*.{ext}"), s("--globs"), format!("!**/{leaf}/**"), s("--globs"), format!("**/*.{ext}")])
+      }
+    }
+  }
   // context lines are a per-file matter too
   match rng.below(10) {
     0 => cmd.args.extend([s("-C"), s("1")]),
@@ -381,9 +402,39 @@ pub fn eval_plan(env: &Env, w: &CliWorld, cmd: &Cmd, plan: &Plan, baselines: &mu
       None => crate::corpus::CORPORA.iter().map(|c| c.lang.to_string()).collect(),
     }
   };
+  // `--globs`: the last glob that matches a path decides; a path no glob matches is left out as
+  // soon as there is an including glob (the generated globs are `**/*.EXT` and `!**/DIR/**`)
+  let globs: Vec<&String> = cmd.args.iter().enumerate().filter(|(i, _)| *i > 0 && cmd.args[i - 1] == "--globs").map(|(_, a)| a).collect();
+  let glob_allows = |p: &str| -> bool {
+    let mut verdict: Option<bool> = None;
+    for g in &globs {
+      let (neg, body) = match g.strip_prefix('!') {
+        Some(b) => (true, b),
+        None => (false, g.as_str()),
+      };
+      let hit = if let Some(ext) = body.strip_prefix("**/*.") {
+        p.ends_with(&format!(".{ext}"))
+      } else if let Some(dir) = body.strip_prefix("**/").and_then(|b| b.strip_suffix("/**")) {
+        let comps: Vec<&str> = p.split('/').collect();
+        comps[..comps.len() - 1].windows(dir.split('/').count()).any(|w| w.join("/") == dir)
+      } else {
+        false
+      };
+      if hit {
+        verdict = Some(!neg);
+      }
+    }
+    verdict.unwrap_or(!globs.iter().any(|g| !g.starts_with('!')))
+  };
+  // a symbolic link is not followed, and what `--globs` excludes is not eligible: neither belongs
+  // to the union even if the walker handed it out
+  universe.retain(|d| {
+    let is_link = std::fs::symlink_metadata(env.root.join(d)).map(|m| m.file_type().is_symlink()).unwrap_or(false);
+    !is_link && (globs.is_empty() || env.root.join(d).is_dir() || glob_allows(d))
+  });
   for f in &w.files {
     let meant = lang_of(&f.path).map(|l| wanted_langs.iter().any(|x| x == l)).unwrap_or(false);
-    if !universe.contains(&f.path) && !ignored(&f.path) && meant {
+    if !universe.contains(&f.path) && !ignored(&f.path) && meant && f.kind != "symlink" && glob_allows(&f.path) {
       universe.push(f.path.clone());
     }
   }
@@ -605,6 +656,9 @@ fn hash_events(ev: &[String]) -> u64 {
 /// afterwards would see the mutated content.
 fn warm_baselines(env: &Env, w: &CliWorld, cmd: &Cmd, baselines: &mut BTreeMap<String, Observed>) -> Result<(), String> {
   for f in &w.files {
+    if f.kind == "symlink" {
+      continue; // not an eligible file: the walker does not follow links
+    }
     if !baselines.contains_key(&f.path) {
       let b = env.baseline(cmd, &f.path)?;
       baselines.insert(f.path.clone(), b);
@@ -767,6 +821,15 @@ impl Simulation for C17Sim {
         }
       }
       r.add("probe:preemptions", po.sched.preemptions);
+      if cmd.args.iter().any(|a| a == "--globs") {
+        r.count("probe:runs_with_globs_overrides");
+      }
+      if w.files.iter().any(|f| f.kind == "symlink") {
+        r.count("probe:runs_in_trees_with_a_symbolic_link");
+      }
+      if !w.aux_files.is_empty() || w.ignore_file.as_deref().is_some_and(|i| i.contains("{foo")) {
+        r.count("probe:runs_in_trees_with_a_rejected_ignore_line");
+      }
       let h = fnv1a(shape_of(&cmd, &plan, &po.sched).as_bytes());
       if po.sched.preemptions > 0 || !po.sched.fired.is_empty() {
         r.more_hashes.push(h);
@@ -839,7 +902,7 @@ impl Simulation for C17Sim {
   }
   fn describe(&self) -> Describe {
     Describe {
-      rule: "a case = (generated project: 1-3 rule languages, 1-9 rules per language out of 45 hand-written templates (utils/constraints/transforms/rewriters/files/ignores/expandStart/End, local utils shadowing global ones) plus 0-3 randomly generated rule trees with inter-dependent utilities; 0-14 source files in nested dirs incl. names with spaces and non-ASCII, empty/non-UTF-8/oversize/binary/3MB-but-short files, BOM, CRLF, no trailing newline, 150-600-element lines; optional .ignore; one command out of 10 scan/run forms with optional context lines; a plan = thread count 1-16 x scheduling policy x seeded schedule x 0-3 I/O faults attached to file reads x optional closed stdout). 20 plans per world. Oracle: output multiset == union of the same command on each file alone, over every file the command is meant to process (not only those the walker reported); framing per JSON style; exit status; --inspect counts; event-log monitors. Yield points: guarded hooks plus every lock/atomic of ast-grep's crates (sync shim). non-trivial = the run had >=1 pre-emption or >=1 fired fault; distinct = full projected scheduler event trace plus command and thread count not seen before".into(),
+      rule: "a case = (generated project: 1-3 rule languages, 1-9 rules per language out of 45 hand-written templates (utils/constraints/transforms/rewriters/files/ignores/expandStart/End, local utils shadowing global ones) plus 0-3 randomly generated rule trees with inter-dependent utilities; 0-14 source files in nested dirs incl. names with spaces and non-ASCII, empty/non-UTF-8/oversize/binary/3MB-but-short files, BOM, CRLF, no trailing newline, 150-600-element lines; optional .ignore incl. lines the glob compiler rejects, nested .ignore files, symbolic links to files (not eligible), `languageInjections`; one command out of 10 scan/run forms with optional context lines, -r/--filter, --globs overrides (later glob wins); a plan = thread count 1-16 x scheduling policy x seeded schedule x 0-3 I/O faults attached to file reads x optional closed stdout). 20 plans per world. Oracle: output multiset == union of the same command on each file alone, over every file the command is meant to process (not only those the walker reported); framing per JSON style; exit status; --inspect counts; event-log monitors. Yield points: guarded hooks plus every lock/atomic of ast-grep's crates (sync shim). non-trivial = the run had >=1 pre-emption or >=1 fired fault; distinct = full projected scheduler event trace plus command and thread count not seen before".into(),
       assumptions: vec![
         "ignore's own thread pool is stubbed: discovery is real code run to completion first, distribution of entries to K simulated walker threads is decided by the scheduler; 'each entry is yielded once' is ignore's contract".into(),
         "code between two yield points runs atomically; every synchronisation object in the pipeline (channel, atomics, file system) has a yield point in front of it".into(),
